@@ -25,6 +25,7 @@ def bad (cmds impl : List String) (kind : String) : Bool := (judge cmds impl).an
 #guard ok ["rt a[o]"] ["save 287b2c7d29", "rest a[i0]"]
 #guard bad ["rt s61"] ["save 226122", "err restore_object(): Illegal string format.", "resterr"] "roundtrip-restore-error"
 #guard bad ["rt s61"] ["saveerr"] "save-refused"
+#guard bad ["rt s61"] ["err save_variable: the saved text is longer than maximum string length.", "saveerr"] "save-refused"   -- a text that certainly fits
 #guard bad ["rt s61"] ["save 226122"] "trace missing-rest"
 #guard bad ["rt f7ff0000000000000"] ["save 696e66", "rest i0"] "roundtrip-nonfinite-float-became-0"
 #guard bad ["rt m{f3f1a36e2eb1c432d:i1,f3f1a36e2d51ec34b:i1}"] ["save 00", "rest m{f3f1a36e2eb1c432d:i1}"] "roundtrip-float-keys-print-alike"
